@@ -14,6 +14,16 @@
     in one byte are filled to 127..129 / 254 / 255 elements in every sixth instance; record-list packs and the composite
     pack are also built with element counts at the boundaries of their 16-bit count cell (gen counts: 127..257,
     32766..65535 elements drawn from three registered items).
+(L) Objects that live on (PackCodec part 5; MC_PackLife: two live packs / containers in every interleaving, a pack
+    written, changed and written again; refuted: a compressor / a writer that hand out a view of one re-used buffer
+    (ZipLaw, Stable), a writer that keeps what it sent last and refreshes it only from a non-zero field
+    (CarriedRestored at the second write)).  Real code: gen life (one object of every type written, changed through
+    its public surface -- assignable leaves zeroed / changed, elements added / removed, public mutators -- written
+    again, decoded; the laws are judged for the content at the moment of each write), gen hold (two or three packs or
+    containers all written / built before the first is read back / unpacked; the writer's own slice, the records blob,
+    the decoded pack and the unpacked items are looked at again after the later calls), gen minimal (per count-prefixed
+    section of every type 1 / 2 / 255 elements of minimal encoding and nothing else, read from exactly the encoding;
+    containers over minimal items).
 (drift) Trace_PackCodec_drift.cfg (Strict = TRUE): the same traces against the TRANSCRIBED tables of the spec
     (registry, per-type carried fields, header bytes, type tag): disagreement alone is a stale spec: exit 2
     (spec_drift), never a violation."""
@@ -32,9 +42,10 @@ def pending_findings(run):
 
 
 def drift(run, out, meta):
-    """second, strict pass over the traces (the long lists of gen counts add nothing to it); one TLC per file, in parallel"""
+    """second, strict pass over the traces (the long lists of gen counts and the object-life / hold / minimal histories add
+    nothing to it: the same writers, the same tables); one TLC per file, in parallel"""
     from concurrent.futures import ThreadPoolExecutor
-    jobs = [j for j in meta.get("jobs", []) if not j["trace"].startswith("c03_counts")
+    jobs = [j for j in meta.get("jobs", []) if not j["trace"].startswith(("c03_counts", "c03_life", "c03_hold", "c03_min"))
             and open(os.path.join(out, j["trace"])).read(64).strip()]
     st = run.trace_states
 
@@ -71,28 +82,51 @@ def body(run):
     th = run.thorough()
     pending_findings(run)
     w = run.pick(4, 16)
-    run.mc("MC_PackCodec", cfg="MC_PackCodec_thorough.cfg" if th else "MC_PackCodec.cfg", workers=w)
-    if th:
-        run.mc("MC_PackCodec", cfg="MC_PackCodec_blobs.cfg", workers=w)
-    if th:   # vacuity: every action of the model is taken (coverage instrumentation is slow on the recursive readers)
-        run.mc("MC_PackCodec", cfg="MC_PackCodec_cov.cfg", workers=2, coverage=True)
-        if run.mc_runs[-1].get("actions_never_taken"):
-            raise vf.MachineryError("MC_PackCodec: actions never taken: %s" % run.mc_runs[-1]["actions_never_taken"])
-    run.mc("MC_PackCodec", cfg="MC_PackCodec_marker8.cfg", expect_violation="CarriedRestored", workers=2)
-    run.mc("MC_PackCodec", cfg="MC_PackCodec_nostamp.cfg", expect_violation="UnpackLaw", workers=2)
-    run.mc("MC_PackCodec", cfg="MC_PackCodec_reverse.cfg", expect_violation="UnpackLaw", workers=2)
-    run.mc("MC_PackCodec", cfg="MC_PackCodec_signedcell.cfg", expect_violation="CarriedRestored", workers=2)
-    out, meta = run.drive("c03")
-    run.absorb(meta)
-    run.validate(out, meta)
-    run.selftest(out, meta, gen="codec", field="consumed")
-    run.selftest(out, meta, gen="lszip", field="status")
-    run.selftest(out, meta, gen="recs", field="items")
-    run.selftest(out, meta, gen="counts", field="outi")
-    if run.violations:
-        vf.log("drift check skipped: the verdict pass already rejected real-code behaviour")
-    else:
-        drift(run, out, meta)
+
+    # the design-level runs do not depend on the driver: they run beside it (one TLC at a time)
+    def design():
+        run.mc("MC_PackCodec", cfg="MC_PackCodec_thorough.cfg" if th else "MC_PackCodec.cfg", workers=w)
+        if th:
+            run.mc("MC_PackCodec", cfg="MC_PackCodec_blobs.cfg", workers=w)
+        if th:   # vacuity: every action of the model is taken (coverage instrumentation is slow on the recursive readers)
+            run.mc("MC_PackCodec", cfg="MC_PackCodec_cov.cfg", workers=2, coverage=True)
+            if run.mc_runs[-1].get("actions_never_taken"):
+                raise vf.MachineryError("MC_PackCodec: actions never taken: %s" % run.mc_runs[-1]["actions_never_taken"])
+        run.mc("MC_PackCodec", cfg="MC_PackCodec_marker8.cfg", expect_violation="CarriedRestored", workers=2)
+        run.mc("MC_PackCodec", cfg="MC_PackCodec_nostamp.cfg", expect_violation="UnpackLaw", workers=2)
+        run.mc("MC_PackCodec", cfg="MC_PackCodec_reverse.cfg", expect_violation="UnpackLaw", workers=2)
+        run.mc("MC_PackCodec", cfg="MC_PackCodec_signedcell.cfg", expect_violation="CarriedRestored", workers=2)
+        # objects that live on (PackCodec part 5): two live packs / containers in every interleaving, write / change /
+        # write again; refuted: a compressor and a writer that hand out a view of one re-used buffer, a writer that
+        # keeps what it sent last and refreshes it only from a non-zero field
+        run.mc("MC_PackLife", cfg="MC_PackLife_thorough.cfg" if th else "MC_PackLife.cfg", workers=w, coverage=not th)
+        if not th and run.mc_runs[-1].get("actions_never_taken"):
+            raise vf.MachineryError("MC_PackLife: actions never taken: %s" % run.mc_runs[-1]["actions_never_taken"])
+        run.mc("MC_PackLife", cfg="MC_PackLife_pooled.cfg", expect_violation="ZipLaw", workers=2)
+        run.mc("MC_PackLife", cfg="MC_PackLife_pooled_bytes.cfg", expect_violation="Stable", workers=2)
+        run.mc("MC_PackLife", cfg="MC_PackLife_stale.cfg", expect_violation="CarriedRestored", workers=2)
+
+    from concurrent.futures import ThreadPoolExecutor
+    pool = ThreadPoolExecutor(max_workers=1)
+    mcs = pool.submit(design)
+    try:
+        out, meta = run.drive("c03")
+        run.absorb(meta)
+        run.validate(out, meta)
+        run.selftest(out, meta, gen="codec", field="consumed")
+        run.selftest(out, meta, gen="lszip", field="status")
+        run.selftest(out, meta, gen="recs", field="items")
+        run.selftest(out, meta, gen="counts", field="outi")
+        run.selftest(out, meta, gen="life", field="again")
+        run.selftest(out, meta, gen="hold", field="same")
+        run.selftest(out, meta, gen="minimal", field="consumed")
+        if run.violations:
+            vf.log("drift check skipped: the verdict pass already rejected real-code behaviour")
+        else:
+            drift(run, out, meta)
+    finally:
+        pool.shutdown(wait=True)
+    mcs.result()          # a failure of the design runs is raised here
     run.assumptions += [
         "pack state is projected by reflection (unexported fields through reflect.NewAt/unsafe, golib tables through their public enumerations, tagged values as atoms via the C02 projection); integers as 8-byte tuples, floats as bit patterns read from memory",
         "the carried set of an instance is derived from the real writer: a leaf is carried iff writing a fresh copy (rebuilt from the same seed) in which only that leaf is changed gives other bytes or makes the writer fail; leaves without a probe (presence of an interface-typed section, opaque types) are not compared",
@@ -104,4 +138,9 @@ def body(run):
         "gen counts: a container of n elements is built from three registered items repeated in a random pattern (the pattern is the `items` of Build); what the decoded container returned is logged as the distinct projections plus, per position, the index of the one found there (lossless; UnpackLaw is stated per distinct pair of item and returned projection); the composite pack's count cell is taken as signed (limit 32767 inner packs), the record lists' as unsigned (65535)",
         "sensitivity probes of an instance whose writer is observably pure (writing changed no leaf, a second write gave the same bytes) share one rebuilt copy for the leaves whose probe is an involution (change, write, change back); the shortcut is dropped for the instance if a writer fails or the copy does not project and write like the original afterwards (count in the evidence); argument noshared=1 turns it off",
         "zip containers: the compressed form is produced the way ZipSendProxyThread.doZip does (compressutil.DoZip, Status = 1); 'is a gzip stream' and the decompressed content are observed with compress/gzip of the standard library",
+        "gen life: an object is changed only through its public surface: leaves reachable through exported fields and the public enumerations of golib's tables (assigned, put back to the zero value of the field, an element added / removed) and the public mutators of the types that keep content private (ParamPack.Put*, TextPack.AddText(s), StatGeneralPack.Put, TagCountPack / TagLogPack.Put*, SMExtension.Set*, HitMapPack1.Add); never: the key record of a table entry changed in place, a whole optional record taken away or an empty record added (the writers need some of their sections), SMBasePack.OS, the version of the transaction statistics packs",
+        "gen life: the content of the object at a write is what the reflection walker projects just before it; the four reserved attributes EventPack.Write carries uuid / escalation / status / otype under are the writer's, not content (not projected; Read takes them out of a decoded pack too); the carried set of a later write is the union of the leaves the real writer is sensitive to in THAT state of the object (probes on copies that lived the same life: same seed, same writes, same changes) and of the leaves a never-written twin of the same content carries (where the twin holds the same leaf value): a writer that sends what it kept from an earlier write instead of a field is insensitive to that field",
+        "gen hold: aliasing is looked for between calls of ONE goroutine (a value handed out and changed by a later call); re-observation is by reading only -- the input handed to a reader is never scribbled on afterwards",
+        "gen minimal: the sections of a type are found by populating it (sections inside elements of other sections by giving those one element); a minimal element is: integers / decimals / floats 0, texts and blobs empty, booleans false, tagged values null, tables and lists without elements, optional records left out unless the writer needs them; one-byte count cells are filled to their limit (255 less what the writer adds itself)",
+        "decoding into an object that was decoded into before (Read(din) twice on one pack) is NOT explored: every reader of golib decodes into a pack CreatePack has just made (ToPack / ReadPack / GetRecords), and a short-form header or an absent optional section deliberately leaves the fields of the receiving object alone",
     ]
